@@ -2,8 +2,10 @@
    A case = one front-end input + the real regex engines' answers on exactly the pairs this case can ask for
    + a list of messages (+ optionally a message whose type byte is swept over all 256 values).
    Key names of the JSON object / DLF elements are spelled here (the model works on enumerations). *)
-From Coq Require Import List NArith Bool String Ascii.
-From AdltV Require Import Base.Obs Filter.Match Filter.Frontends.
+From Coq Require Import List NArith Bool Ascii.
+From Coq Require Export String.
+From AdltV Require Import Base.Obs.
+From AdltV Require Export Filter.Match Filter.Frontends.
 Import ListNotations.
 Open Scope N_scope.
 
